@@ -67,6 +67,74 @@ B = [
         let back = unsafe { slot.assume_init_read() };
         self.dec_size();
         Some(back)"""),
+ ("iter_len_commuted", "src/iter.rs", """impl<T> ExactSizeIterator for Iter<'_, T> {
+    #[inline]
+    fn len(&self) -> usize {
+        self.right.len() + self.left.len()
+    }
+}""", """impl<T> ExactSizeIterator for Iter<'_, T> {
+    #[inline]
+    fn len(&self) -> usize {
+        self.left.len() + self.right.len()
+    }
+}"""),
+ ("write_len_first", "src/io.rs", """        self.extend_from_slice(src);
+        Ok(src.len())""", """        let n = src.len();
+        self.extend_from_slice(src);
+        Ok(n)"""),
+ ("swap_early_return", L, """        if i != j {
+            let i = add_mod(self.start, i, N);
+            let j = add_mod(self.start, j, N);
+            // SAFETY: these are valid pointers
+            unsafe { ptr::swap_nonoverlapping(&mut self.items[i], &mut self.items[j], 1) };
+        }""", """        if i == j {
+            return;
+        }
+        let i = add_mod(self.start, i, N);
+        let j = add_mod(self.start, j, N);
+        // SAFETY: these are valid pointers
+        unsafe { ptr::swap_nonoverlapping(&mut self.items[i], &mut self.items[j], 1) };"""),
+ ("truncate_back_disjuncts_swapped", L, """    pub fn truncate_back(&mut self, len: usize) {
+        if N == 0 || len >= self.size {""", """    pub fn truncate_back(&mut self, len: usize) {
+        if len >= self.size || N == 0 {"""),
+ ("extend_min_method", L, """            let write_len = core::cmp::min(right.len(), other.len());""", """            let write_len = right.len().min(other.len());"""),
+ ("pop_front_bookkeeping_swapped", L, """        let front = unsafe { self.front_maybe_uninit().assume_init_read() };
+        self.dec_size();
+        self.inc_start();
+        Some(front)""", """        let front = unsafe { self.front_maybe_uninit().assume_init_read() };
+        self.inc_start();
+        self.dec_size();
+        Some(front)"""),
+ ("drain_drop_droppers_order", D, """        drop(right);
+        drop(left);
+""", """        drop(left);
+        drop(right);
+"""),
+ ("consume_local_len", "src/io.rs", """        let amt = cmp::min(amt, self.len());
+        self.drain(..amt);""", """        let len = self.len();
+        let amt = cmp::min(len, amt);
+        self.drain(..amt);"""),
+ ("over_range_lets_reordered", "src/iter.rs", """            let len = buf.len();
+            let mut it = Self::new(buf);
+            it.advance_front_by(start);
+            it.advance_back_by(len - end);
+            it
+        }
+    }
+
+    fn advance_front_by(&mut self, count: usize) {
+        if self.right.len() > count {
+            slice_take(&mut self.right, ..count);""", """            let mut it = Self::new(buf);
+            let len = buf.len();
+            it.advance_front_by(start);
+            it.advance_back_by(len - end);
+            it
+        }
+    }
+
+    fn advance_front_by(&mut self, count: usize) {
+        if self.right.len() > count {
+            slice_take(&mut self.right, ..count);"""),
  ("swap_remove_back_len", L, """    pub fn swap_remove_back(&mut self, index: usize) -> Option<T> {
         if index >= self.size {
             return None;
